@@ -134,8 +134,9 @@ def check(ctx):
             else:
                 rep.unknown("R-C23-fresh", where, "stored value form not modelled")
     rep.floor("stores to _compile_pipeline in the constructor", n_store, 2)
-    from .c23_extra import extra, slices
+    from .c23_extra import extra, routing_args, slices
 
     extra(ctx, rep)
     slices(ctx, rep)
+    routing_args(ctx, rep)
     return rep
